@@ -428,7 +428,7 @@ def check(pid: str, tier: str, seed: int, budget_s: float | None, workers: int |
     batch = getattr(prop, "BATCH", 100)
     det_every = getattr(prop, "DET_EVERY", 25)
     print(f"check {pid} tier={tier} VERIF_SEED={seed} budget={budget_s}s workers={workers} src={env.SRC}")
-    globals_found = env.scan_process_globals()
+    globals_found = env.scan_process_globals() + [n for n, _, _ in env._SNAP]
 
     viol_items, n_regress, known_hits = run_regress(pid, known)
     sweep = None
